@@ -134,7 +134,13 @@ def replay_all(ctx, jobs, nproc=None):
         c = mp.get_context("spawn")
         pool = c.Pool(nproc, initializer=_worker_init)
         try:
-            res = pool.map(_worker_replay, args, chunksize=max(1, len(args) // (nproc * 8)))
+            # backstop only: a call of the code under test that does not return is turned into an observation
+            # ("hang") by the alarm inside the replay; this timeout guards the harness itself
+            res = pool.map_async(_worker_replay, args, chunksize=max(1, len(args) // (nproc * 8))).get(
+                timeout=int(os.environ.get("VERIF_POOL_TIMEOUT_S", "3000")))
+        except mp.TimeoutError:
+            pool.terminate()
+            raise core.MachineryFailure("replay pool did not finish within the backstop timeout")
         finally:
             pool.close()
             pool.join()
@@ -160,7 +166,8 @@ def describe_script(p):
     fl = ";".join(f"{f['kind']}@{f['stage']}/{f['where']}/{f['at']}/i{f['i']}" for f in p.get("flog", []))
     return (f"k={c['k']} T={c['solveT']} skip={c['skipT']} out={c['out']} foreign={'+'.join(c.get('foreign', [])) or '-'}"
             f" thermal_dts={p.get('tdts', [])} dts={p.get('simdts', [])} faults=[{fl}] probes={p.get('probes', 0)}"
-            f" screening={p.get('screening', False)}" + (f" prior-run-same-path={p['prior']}" if p.get('prior') else ""))
+            f" screening={p.get('screening', False)}" + (f" prior-run-same-path={p['prior']}" if p.get('prior') else "")
+            + (f" output_file={p['outname']}" if p.get('outname', 'out.h5') != 'out.h5' else ""))
 
 
 def fault_class(p):
